@@ -53,7 +53,11 @@ func hBechPolymod(values []byte) uint32 {
 	return chk
 }
 
-func hBechEncodeRaw(hrp string, data5 []byte) string {
+func hBechEncodeRaw(hrp string, data5 []byte) string { return hBechEncodeRawConst(hrp, data5, 1) }
+
+// the checksum computed against another final constant (0x2bc830a3 is the Bech32m one of BIP350: those
+// strings are NOT valid Bech32, which is what this library implements)
+func hBechEncodeRawConst(hrp string, data5 []byte, konst int) string {
 	var vals []byte
 	for i := 0; i < len(hrp); i++ {
 		vals = append(vals, hrp[i]>>5)
@@ -63,7 +67,7 @@ func hBechEncodeRaw(hrp string, data5 []byte) string {
 		vals = append(vals, hrp[i]&31)
 	}
 	vals = append(vals, data5...)
-	pm := hBechPolymod(append(append([]byte{}, vals...), 0, 0, 0, 0, 0, 0)) ^ 1
+	pm := hBechPolymod(append(append([]byte{}, vals...), 0, 0, 0, 0, 0, 0)) ^ uint32(konst)
 	out := []byte(hrp + "1")
 	for _, d := range data5 {
 		out = append(out, bechCharset[d&31])
@@ -548,6 +552,20 @@ func runC08(r *Runner) string {
 		}
 		r.Do("bech32.dec", []string{sx(s)}, "bech32-dec-repadded", true, "")
 		r.Do("bech32.dec.spec", []string{sx(s)}, "bech32-dec-repadded-spec", true, "")
+	}
+	// strings whose checksum is right for another final constant (Bech32m, 0, 2, the constant with one bit flipped)
+	for i := 0; i < r.N(40, 400); i++ {
+		hrp := []string{"bc", "tb", "a", "bcrt", "ltc"}[i%5]
+		wv := []byte{1, 0, 2, 16}[i%4]
+		d5 := append([]byte{wv}, hTo5(r.bytesN([]int{32, 20, 2, 40, 0}[i%5]))...)
+		k := []int{0x2bc830a3, 0x2bc830a3, 0, 2, 0x2bc830a3 ^ 1, 0x3fffffff}[i%6]
+		s := hBechEncodeRawConst(hrp, d5, k)
+		if i%7 == 3 {
+			s = strings.ToUpper(s)
+		}
+		r.Do("bech32.dec", []string{sx(s)}, "bech32-dec-other-constant", true, fmt.Sprintf("checksum constant %#x", k))
+		r.Do("bech32.dec.spec", []string{sx(s)}, "bech32-dec-other-constant-spec", true, "")
+		r.Do("bech32.validate", []string{sx(s)}, "bech32-validate-other-constant", true, "")
 	}
 	// every data-part length 0..12 for a one-character hrp, all-zero and all-ones data
 	for n := 0; n <= 14; n++ {
